@@ -31,7 +31,7 @@ def gen_case(rng):
         om['keyspace'] = [[l, 1] for l in range(19)]
         spec['omen'] = om
         # also Markov shares below 1e-4, which repr() writes in exponent notation (a ruleset trained with a coverage very close to 1)
-        pm = rng.choice([0.5, 0.25, 0.4002480779760552, 0.1, 0.3, 1 / 3, 0.6, 4.999999999999748e-05, 1e-05, 3.2e-07])
+        pm = rng.choice([0.5, 0.25, 0.4002480779760552, 0.1, 0.3, 1 / 3, 0.6, 4.999999999999748e-05, 1e-05, 3.2e-07, 0.0, 1e-17])     # 0.0 / 1e-17: Markov silenced by hand, 1 - P(M) == 1.0
         if place == 'only':
             spec['base'] = [['M', 1.0]]
         else:
